@@ -93,7 +93,7 @@ def parseSelectionSet (fl : Flags) (fuel : Nat) : P SelectionSet :=
 def parseOperationType : P Text := do
   let token ← expect .name
   if token.value ∈ Generated.ParserTables.operationTypeTuple then pure token.value
-  else fail "Unexpected operation type"
+  else failAt token "Unexpected operation type"
 
 /-- `parse_operation_definition`; P4 fixed (`source`) is not visible in the model -/
 def parseOperationDefinition (fl : Flags) (fuel : Nat) : P OperationDefinition := do
